@@ -181,6 +181,21 @@ class LayerA(core.Layer):
         return check_case(tuple(case['tuple']), case['reference'], case['query'], case['peaks'], case['reverse'], None)
 
 
+class FractionalA(LayerA):
+    """query labels off the lattice by fractional amounts around maxDistance (4 -> 3.5 / 4.5, 6 -> 5.5 / 6.5): a pair must be within
+    maxPairDistance of the diagonal measured on the real coordinates"""
+
+    def __init__(self, name, tuples, optional=False):
+        LayerA.__init__(self, name, 3, 3, tuples, optional)
+        self.qrys = []
+        for q0 in lattice.qry_sets(3, STEP):
+            for jit in itertools.product((-4.5, -3.5, 0, 4.5, 6.5), repeat=len(q0) - 1):
+                self.qrys.append([0] + [p + j for p, j in zip(q0[1:], jit)])
+        self.bounds = dict(self.bounds, jitter=[-4.5, -3.5, 0, 4.5, 6.5], NR=3, NQ=3)
+        self.rule = 'fractional jitter: %d reference sets x %d jittered queries x %d peak lists x 2 strands x %d parameter tuples' % (
+            len(self.refs), len(self.qrys), len(self.peaks), len(tuples))
+
+
 class LadderA(core.Layer):
     def __init__(self, name, full, tuples, optional=False):
         self.name, self.optional = name, optional
@@ -292,10 +307,10 @@ def layers(tier, seed):
     if tier == 'quick':
         ws = ws[::3]
         sets = settings(1)
-        la = [LayerA('A:NR4,NQ4', 4, 4, TUPLES[:6]), LadderA('A:indel-ladders', False, TUPLES[:4])]
+        la = [LayerA('A:NR4,NQ4', 4, 4, TUPLES[:6]), FractionalA('A:fractional', TUPLES[:4]), LadderA('A:indel-ladders', False, TUPLES[:4])]
     else:
         sets = settings(2)
-        la = [LayerA('A:NR4,NQ4', 4, 4, TUPLES), LadderA('A:indel-ladders', True, TUPLES), LayerA('A:NR5,NQ4', 5, 4, TUPLES[:6])]
+        la = [LayerA('A:NR4,NQ4', 4, 4, TUPLES), FractionalA('A:fractional', TUPLES), LadderA('A:indel-ladders', True, TUPLES), LayerA('A:NR5,NQ4', 5, 4, TUPLES[:6])]
     ws = ws + e2e.same_locus_worlds()
     lb = e2e.WorldLayer('B:worlds', ws, judge, modes=('best', 'separate'), extras=sets, keep_result=True, extensions=[sink.Rows], in_child=in_child,
                         bounds=dict(worlds=len(ws), modes=['best', 'separate'], settings=[list(s) for s in sets]),
